@@ -116,6 +116,9 @@ func NewReport(property, part string) *Report {
 	if p := os.Getenv("VERIF_PROPERTY"); p != "" {
 		property = p // one harness can serve several checks; the driver says which one is being decided
 	}
+	if pn := os.Getenv("VERIF_PART"); pn != "" {
+		part = pn
+	}
 	return &Report{
 		Property: property, Part: part, Tier: Tier(), Shard: i, NShards: n,
 		states: map[uint64]struct{}{}, nontrivial: map[uint64]struct{}{},
